@@ -2,6 +2,7 @@ SPECIFICATION Spec
 CONSTANTS
   NConn = 2
   MaxReq = 1
+  MaxReq2 = 1
   Protos <- H1Only
   TlsModes <- OnlyFalse
   MakeModes <- OnlyFalse
